@@ -440,7 +440,7 @@ impl FaceModify {
             face.bg = Some(bg);
         }
         if let Some(underline) = self.underline {
-            face.attrs |= underline.into();
+            face.attrs = FaceAttrs::pack(underline, face.attrs.unpack().1);
         }
         // TODO: underline_color
         for (update, flag) in [
